@@ -234,7 +234,9 @@ func conversionOutcome(pre, post snap, amount sdk.Int, pair *aggregatetypes.Toke
 // ---------------------------------------------------------------------------------------------
 // registry construction through the governance handler (the path a passed proposal takes)
 
-func govHandler(a *app.Teleport) govtypes.Handler { return aggregate.NewAggregateProposalHandler(a.AggregateKeeper) }
+func govHandler(a *app.Teleport) govtypes.Handler {
+	return aggregate.NewAggregateProposalHandler(a.AggregateKeeper)
+}
 
 func voucherMetadata(denom, trace string) banktypes.Metadata {
 	sym := "ibc" + denom[4:10]
@@ -391,10 +393,10 @@ func genReceiver(t *rapid.T, existing []sdk.AccAddress, allowBlank, persistent b
 		good := kit.NewAccount([]byte("c16-invalid")).Acc
 		opts := []string{
 			"not-an-address",
-			bech("osmo", good),                      // foreign prefix
-			strings.ToUpper(good.String()),          // upper case is valid bech32 but…
-			good.String()[:len(good.String())-1] + "q", // broken checksum (almost surely)
-			"0x" + hex.EncodeToString(good),         // hex form
+			bech("osmo", good),                                           // foreign prefix
+			strings.ToUpper(good.String()),                               // upper case is valid bech32 but…
+			good.String()[:len(good.String())-1] + "q",                   // broken checksum (almost surely)
+			"0x" + hex.EncodeToString(good),                              // hex form
 			bech(sdk.GetConfig().GetBech32AccountAddrPrefix(), []byte{}), // empty payload
 			" " + good.String(),
 		}
